@@ -1,0 +1,142 @@
+//go:build verif
+
+// Contracts for package gsfa, property C07 (comment-only; read by /verif/vcgo, build tag verif).
+package gsfa
+
+// (r.offsets.index != nil and r.ll.file != nil - the preconditions of the two file readers - are unexported fields of other
+// packages and cannot be named here: the two `pre` obligations at index.offsets.Get / index.ll.ReadWithSize stay open.)
+//@ spec func validMulti(m *GsfaReaderMultiepoch) bool = m != nil && (forall i int :: 0 <= i && i < len(m.epochs) ==> m.epochs[i] != nil && m.epochs[i].offsets != nil && m.epochs[i].ll != nil)
+
+//@ func (*GsfaReader) GetEpoch
+//@   mode int
+//@   ensures result1 == (index.epoch != nil)
+//@   ensures result1 ==> result0 == *index.epoch
+//@   ensures !result1 ==> result0 == 0
+
+//@ func debugln
+//@   mode int
+
+// Sum of the lengths of all lists. Not stated: vcgo has no way to name sum_k len(e[k]) over a map, and `count >= 0` is not
+// inductive (Go int addition wraps in the model; real lists cannot be that long). See the report.
+//@ func (EpochToTransactionObjects) Count
+//@   mode int
+
+//@ spec func slotsOK(m EpochToTransactionObjects, lo int) bool = forall e uint64 :: forall i int :: has(m, e) && 0 <= i && i < len(m[e]) ==> m[e][i] != nil && m[e][i].Slot >= lo
+//@ spec func slotsBelow(m EpochToTransactionObjects, hi int) bool = forall e uint64 :: forall i int :: has(m, e) && 0 <= i && i < len(m[e]) ==> m[e][i] != nil && m[e][i].Slot < hi
+//@ spec func sepLists(m EpochToTransactionObjects) bool = forall a, b uint64 :: has(m, a) && has(m, b) && a != b ==> ref(m[a]) != ref(m[b])
+//@ spec func allocLists(m EpochToTransactionObjects) bool = forall a uint64 :: has(m, a) ==> allocated(m[a])
+
+// Slot window [until, before): lower bound, upper bound, result map shape. `slotsBelow` (upper bound) FAILS on the current code
+// (inv-step of loop 2; replayed: /verif/replay/manual/ct-c07, C07/slot-outside-range) and verifies with fix.patch applied.
+// until/before < 2^63: the code compares `tx.Slot < int(until)` (wraps for larger values); the callers have to establish it
+// (fix.patch compares in uint64, after which this requires can be dropped).
+// Not stated: "at most limit transactions" (no way to name sum_k len(m[k]); Count() would have to return it) and "an epoch
+// whose offsets lookup is NotFound contributes nothing and no error" as an ensures (needs ghost outcomes of the cross-package
+// lookups); both are covered by the exhaustive replay test only. What IS checked on the NotFound `continue`: all loop
+// invariants are re-established there (the path returns no error by construction).
+//@ func (*GsfaReaderMultiepoch) iterBeforeUntilSlot
+//@   mode int
+//@   requires ctx != nil && fetcher != nil && validMulti(multi)
+//@   requires allocated(multi.epochs) && (len(multi.epochs) > 0 ==> ref(multi.epochs) != 0) && (forall i int :: 0 <= i && i < len(multi.epochs) ==> allocated(multi.epochs[i]))
+//@   requires until < 9223372036854775808 && before < 9223372036854775808
+//@   fncall fetcher ensures result1 == nil ==> result0 != nil
+//@   modifies allof([]uint8)
+//@   ensures result1 == nil ==> result0 != nil
+//@   ensures result1 == nil ==> slotsOK(result0, int(until))
+//@   ensures result1 == nil ==> slotsBelow(result0, int(before))
+//@   loop 0 invariant transactions != nil && fresh(transactions)
+//@   loop 0 invariant slotsOK(transactions, int(until))
+//@   loop 0 invariant sepLists(transactions)
+//@   loop 0 invariant allocLists(transactions)
+//@   loop 0 invariant slotsBelow(transactions, int(before))
+//@   loop 1 invariant transactions != nil && fresh(transactions)
+//@   loop 1 invariant slotsOK(transactions, int(until))
+//@   loop 1 invariant sepLists(transactions)
+//@   loop 1 invariant allocLists(transactions)
+//@   loop 1 invariant slotsBelow(transactions, int(before))
+//@   loop 2 invariant transactions != nil && fresh(transactions)
+//@   loop 2 invariant slotsOK(transactions, int(until))
+//@   loop 2 invariant sepLists(transactions)
+//@   loop 2 invariant allocLists(transactions)
+//@   loop 2 invariant slotsBelow(transactions, int(before))
+
+// ---- signature-bounded paging ----
+// sigOf(tx) is the pure (Transaction).Signature() of package ipldbindcode (first signature of the node).
+//@ spec func untilFree(m EpochToTransactionObjects, u solana.Signature) bool = forall e uint64 :: forall i int :: has(m, e) && 0 <= i && i < len(m[e]) ==> m[e][i] != nil && (*m[e][i]).Signature() != u
+//@ spec func untilLast(m EpochToTransactionObjects, u solana.Signature) bool = forall e uint64 :: forall i int :: has(m, e) && 0 <= i && i < len(m[e]) - 1 ==> m[e][i] != nil && (*m[e][i]).Signature() != u
+//@ spec func emptyMap(m EpochToTransactionObjects) bool = forall e uint64 :: !has(m, e)
+//@ spec func keysAreEpochs(m EpochToTransactionObjects, multi *GsfaReaderMultiepoch) bool = forall e uint64 :: has(m, e) ==> exists k int :: 0 <= k && k < len(multi.epochs) && multi.epochs[k].epoch != nil && *multi.epochs[k].epoch == e
+
+//@ func (*GsfaReaderMultiepoch) iterBeforeUntil
+//@   mode int
+//@   requires ctx != nil && fetcher != nil && validMulti(multi)
+//@   requires allocated(multi.epochs) && (len(multi.epochs) > 0 ==> ref(multi.epochs) != 0) && (forall i int :: 0 <= i && i < len(multi.epochs) ==> allocated(multi.epochs[i]))
+//@   fncall fetcher ensures result1 == nil ==> result0 != nil
+//@   # (assumed) the byte buffer of a fetched node is not the caller's before/until signature array
+//@   fncall fetcher ensures result1 == nil ==> ref(result0.Data.Data) != ref(until) && ref(result0.Data.Data) != ref(before)
+//@   modifies allof([]uint8)
+//@   ensures result1 == nil ==> result0 != nil
+//@   # nothing is returned unless the `before` signature has been met (or none was given)
+//@   ensures result1 == nil && limit > 0 && before != nil && !reachedBefore ==> emptyMap(result0)
+//@   ensures result1 == nil && limit > 0 && before == nil ==> reachedBefore
+//@   # the walk stops right after `until`: a returned transaction carrying it is the last of its epoch's list
+//@   ensures result1 == nil && until != nil ==> untilLast(result0, *until)
+//@   ensures result1 == nil ==> keysAreEpochs(result0, multi)
+//@   loop 0 invariant transactions != nil && fresh(transactions) && (before == nil ==> reachedBefore)
+//@   loop 0 invariant !reachedBefore ==> emptyMap(transactions)
+//@   loop 0 invariant until != nil ==> untilFree(transactions, *until)
+//@   loop 0 invariant sepLists(transactions)
+//@   loop 0 invariant allocLists(transactions)
+//@   loop 0 invariant keysAreEpochs(transactions, multi)
+//@   loop 1 invariant transactions != nil && fresh(transactions) && (before == nil ==> reachedBefore)
+//@   loop 1 invariant !reachedBefore ==> emptyMap(transactions)
+//@   loop 1 invariant until != nil ==> untilFree(transactions, *until)
+//@   loop 1 invariant sepLists(transactions)
+//@   loop 1 invariant allocLists(transactions)
+//@   loop 1 invariant keysAreEpochs(transactions, multi)
+//@   loop 1 invariant 0 <= readerIndex && readerIndex < len(multi.epochs) && multi.epochs[readerIndex] == index && index.epoch != nil && *index.epoch == epochNum
+//@   loop 2 invariant transactions != nil && fresh(transactions) && (before == nil ==> reachedBefore)
+//@   loop 2 invariant !reachedBefore ==> emptyMap(transactions)
+//@   loop 2 invariant until != nil ==> untilFree(transactions, *until)
+//@   loop 2 invariant sepLists(transactions)
+//@   loop 2 invariant allocLists(transactions)
+//@   loop 2 invariant keysAreEpochs(transactions, multi)
+//@   loop 2 invariant 0 <= readerIndex && readerIndex < len(multi.epochs) && multi.epochs[readerIndex] == index && index.epoch != nil && *index.epoch == epochNum
+
+// ---- constructor, epoch tag, public wrappers ----
+
+//@ func (*GsfaReader) SetEpoch
+//@   mode int
+//@   modifies index
+//@   ensures index.epoch != nil
+//@   ensures *index.epoch == epoch
+//@   # (fresh(index.epoch) is true - &epoch escapes to a new heap cell per call - but not provable: vcgo allocates the cell of an
+//@   # address-taken parameter before the pre-state mark)
+//@   ensures index.offsets == old(index.offsets) && index.ll == old(index.ll) && index.man == old(index.man)
+
+//@ func NewGsfaReaderMultiepoch
+//@   mode int
+//@   requires forall i int :: 0 <= i && i < len(epochs) ==> epochs[i] != nil
+//@   ensures result1 == nil ==> result0 != nil && fresh(result0) && result0.epochs == epochs
+//@   ensures result1 == nil ==> forall i int :: 0 <= i && i < len(epochs) ==> epochs[i].epoch != nil
+//@   ensures result1 != nil ==> result0 == nil
+//@   loop 0 invariant forall k int :: 0 <= k && k < rangeidx0 ==> epochs[k].epoch != nil
+
+//@ func (*GsfaReaderMultiepoch) GetBeforeUntil
+//@   mode int
+//@   requires ctx != nil && fetcher != nil && validMulti(multi)
+//@   requires allocated(multi.epochs) && (len(multi.epochs) > 0 ==> ref(multi.epochs) != 0) && (forall i int :: 0 <= i && i < len(multi.epochs) ==> allocated(multi.epochs[i]))
+//@   modifies allof([]uint8)
+//@   ensures result1 == nil ==> result0 != nil
+//@   ensures result1 == nil && until != nil ==> untilLast(result0, *until)
+//@   ensures result1 == nil ==> keysAreEpochs(result0, multi)
+
+//@ func (*GsfaReaderMultiepoch) GetBeforeUntilSlot
+//@   mode int
+//@   requires ctx != nil && fetcher != nil && validMulti(multi)
+//@   requires allocated(multi.epochs) && (len(multi.epochs) > 0 ==> ref(multi.epochs) != 0) && (forall i int :: 0 <= i && i < len(multi.epochs) ==> allocated(multi.epochs[i]))
+//@   requires until < 9223372036854775808 && before < 9223372036854775808
+//@   modifies allof([]uint8)
+//@   ensures result1 == nil ==> result0 != nil
+//@   ensures result1 == nil ==> slotsOK(result0, int(until))
+//@   ensures result1 == nil ==> slotsBelow(result0, int(before))
